@@ -371,6 +371,13 @@ def invalid_edits(f, data, raw):
             tpos = pos + w + (len(name) + 3) // 4 * 4
             b = bytearray(raw); b[tpos:tpos + 4] = (12).to_bytes(4, 'big'); yield 'bad-nc_type', bytes(b)
     b = bytearray(raw); b[3] = 3; yield 'bad-version-byte', bytes(b)
+    # every single padding byte of the header (names and values of dimensions, variables and attributes, wherever they sit in
+    # their lists) set to a non-null value: found by encoding the header twice with different padding
+    g = copy.deepcopy(f); cdf.layout(g)
+    h0 = cdf.encode_header(g, pad_byte=0); h1 = cdf.encode_header(g, pad_byte=0x5A)
+    if len(h0) == len(h1) and raw[:len(h0)] == h0:
+        for pos in [i for i in range(len(h0)) if h0[i] != h1[i]]:
+            b = bytearray(raw); b[pos] = 0x5A; yield 'nonnull-padding-at-%d' % pos, bytes(b)
 
 
 def main(tier=None, only=None):
@@ -394,7 +401,7 @@ def main(tier=None, only=None):
         p = wfile(raw); rc, out = run([U['ncvalidator'], '-q', p]); os.unlink(p)
         ck.outcomes.add(('ncvalidator', rc == 0))
         if expect_ok and rc != 0: V(('tool', 'ncvalidator', 'rejects a valid file'), label, '%s: ncvalidator exits %d on a file the library wrote / the encoder made: %s' % (label, rc, out[:300]))
-        if not expect_ok and rc == 0: V(('tool', 'ncvalidator', 'accepts: ' + label.split(':')[-1]), label, '%s: ncvalidator accepts a header that violates the specification' % label)
+        if not expect_ok and rc == 0: V(('tool', 'ncvalidator', 'accepts: ' + re.sub(r'-at-\d+$', '', label.split(':')[-1])), label, '%s: ncvalidator accepts a header that violates the specification' % label)
 
     def t_diff(label, raw1, raw2, expect_same, nps=(1,)):
         p1, p2 = wfile(raw1), wfile(raw2)
